@@ -84,6 +84,67 @@ package binary
 // dynamically (checked on its SSA).
 //@ callback-parametric func writeChangeSwitchCase
 
+// C01 (docs/reference/binary.md, Protocols and Streams): a plain step is written and read with the function of its
+// type; a stream is a sequence of blocks (a count, then that many items) closed by an empty block: one item is
+// one block written with the item function, a batch is written as a vector of items (count + items = one block),
+// reading one item takes it from the current block and reading a batch drains blocks into the vector, always with the
+// function of the item type. The end of a stream is the integer 0.
+//@ func writeStepRw
+//@   property C01,C14
+//@   ensures a_plain_step_uses_the_function_of_its_type: !isStream ==> emitted("%s(stream_, %s);\n") == 1 && emittedArg("%s(stream_, %s);\n", 0, 0, string) == typeRwFunction(old(stepType), write) && emittedArg("%s(stream_, %s);\n", 0, 1, string) == target
+//@   ensures one_item_is_one_block: isStream && write && !isPlural ==> emitted("yardl::binary::WriteBlock<%s, %s>(stream_, %s);\n") == 1 && emittedArg("yardl::binary::WriteBlock<%s, %s>(stream_, %s);\n", 0, 0, string) == common.TypeSyntax(old(stepType)) && emittedArg("yardl::binary::WriteBlock<%s, %s>(stream_, %s);\n", 0, 1, string) == typeRwFunction(old(stepType), write) && emittedArg("yardl::binary::WriteBlock<%s, %s>(stream_, %s);\n", 0, 2, string) == target && emitted("%s(stream_, %s);\n") == 0
+//@   ensures a_batch_is_written_as_a_vector: isStream && write && isPlural ==> emitted("%s(stream_, %s);\n") == 1 && emittedArg("%s(stream_, %s);\n", 0, 1, string) == target && emitted("yardl::binary::WriteBlock<%s, %s>(stream_, %s);\n") == 0
+//@   ensures one_item_is_read_from_the_current_block: isStream && !write && !isPlural ==> emitted("read_block_successful = yardl::binary::ReadBlock<%s, %s>(stream_, current_block_remaining_, %s);\n") == 1 && emittedArg("read_block_successful = yardl::binary::ReadBlock<%s, %s>(stream_, current_block_remaining_, %s);\n", 0, 1, string) == typeRwFunction(old(stepType), write) && emittedArg("read_block_successful = yardl::binary::ReadBlock<%s, %s>(stream_, current_block_remaining_, %s);\n", 0, 2, string) == target
+//@   ensures a_batch_is_read_block_by_block_with_the_item_function: isStream && !write && isPlural ==> emitted("yardl::binary::ReadBlocksIntoVector<%s, %s>(stream_, current_block_remaining_, %s);\n") == 1 && emittedArg("yardl::binary::ReadBlocksIntoVector<%s, %s>(stream_, current_block_remaining_, %s);\n", 0, 1, string) == typeRwFunction(old(stepType).(*dsl.GeneralizedType).ToScalar(), write) && emittedArg("yardl::binary::ReadBlocksIntoVector<%s, %s>(stream_, current_block_remaining_, %s);\n", 0, 2, string) == target && emitted("%s(stream_, %s);\n") == 0
+// the unchanged version of a step is read / written with the step's own type, into `value` (one item) or `values` (batch)
+//@ observe-args cpp/binary.writeStepRw
+//@ func writeProtocolStep$1
+//@   property C01,C05
+//@   ensures the_current_version_uses_the_step_type: calls(writeStepRw) == 1 && lastArg(writeStepRw, 1) == step.Type
+//@   ensures the_current_version_uses_the_step_type2: lastArg(writeStepRw, 3) == lastResult("dsl.(*ProtocolStep).IsStream")
+//@   ensures the_current_version_uses_the_step_type3: lastArg(writeStepRw, 4) == isPlural && lastArg(writeStepRw, 5) == write
+//@   ensures the_current_version_uses_the_step_type4: lastArg(writeStepRw, 2) == target
+// (`target` is the C++ variable the generated statement reads from or writes to: a batch is `values`, one item `value`)
+//@ func writeProtocolStep
+//@   property C01
+//@   ensures a_batch_is_called_values: (isPlural ==> target == "values") && (!isPlural ==> target == "value")
+// a step that a previous version did not have: nothing is written; a reader yields the empty value
+//@ func writeProtocolStep$2
+//@   property C05
+//@   ensures an_added_step_writes_nothing: write ==> !called(writeStepRw) && emitted("values.clear();\n") == 0 && emitted("value = std::move(%s);\n") == 0
+//@   ensures an_added_step_reads_as_empty: (!write && isPlural ==> emitted("values.clear();\n") == 1) && (!write && !isPlural ==> emitted("%s %s = {};\n") == 1 && emitted("value = std::move(%s);\n") == 1)
+//@   ensures an_added_stream_has_no_items: !write && !isPlural ==> (lastResult("dsl.(*ProtocolStep).IsStream") ==> emitted("return false;\n") == 1) && (!lastResult("dsl.(*ProtocolStep).IsStream") ==> emitted("return false;\n") == 0)
+//@ func writeEndStream$1
+//@   property C01
+//@   ensures a_stream_ends_with_an_empty_block: emitted("yardl::binary::WriteInteger(stream_, 0U);\n") == 1
+//@ func writeEndStream$2
+//@   property C05
+//@   ensures an_added_stream_has_no_end_marker: emitted("yardl::binary::WriteInteger(stream_, 0U);\n") == 0
+
+// C05: which type changes need generated conversion code. A change of a referenced definition needs none here (the
+// compatibility serializer of that definition does the work); a change inside an optional, a stream or a vector needs
+// what the change of its element needs; every other recorded change converts values and is never read or written with
+// the functions of the new type.
+//@ func requiresExplicitConversion
+//@   property C05
+//@   pure
+//@   ensures a_changed_definition_converts_itself: typeof(tc) == *dsl.TypeChangeDefinitionChanged ==> !result
+//@   ensures an_optional_goes_by_its_element: typeof(tc) == *dsl.TypeChangeOptionalTypeChanged && tc.(*dsl.TypeChangeOptionalTypeChanged) != nil ==> result == requiresExplicitConversion(tc.(*dsl.TypeChangeOptionalTypeChanged).InnerChange)
+//@   ensures a_stream_goes_by_its_element: typeof(tc) == *dsl.TypeChangeStreamTypeChanged && tc.(*dsl.TypeChangeStreamTypeChanged) != nil ==> result == requiresExplicitConversion(tc.(*dsl.TypeChangeStreamTypeChanged).InnerChange)
+//@   ensures a_vector_goes_by_its_element: typeof(tc) == *dsl.TypeChangeVectorTypeChanged && tc.(*dsl.TypeChangeVectorTypeChanged) != nil ==> result == requiresExplicitConversion(tc.(*dsl.TypeChangeVectorTypeChanged).InnerChange)
+//@   ensures every_other_change_converts_values: typeof(tc) != *dsl.TypeChangeDefinitionChanged && typeof(tc) != *dsl.TypeChangeOptionalTypeChanged && typeof(tc) != *dsl.TypeChangeStreamTypeChanged && typeof(tc) != *dsl.TypeChangeVectorTypeChanged ==> result
+
+// C05: the compatibility serializer of a changed record transfers the fields of the OLD version, in the old order,
+// each exactly once: a removed field is read into (written from) a temporary of the old type, an unchanged field goes
+// straight to (comes from) the field of the same name with the function of its type.
+//@ func writeCompatibilitySerializers$1
+//@   property C05
+//@   iteration 0: every_old_field_is_transferred_once: emitted("%s(stream, %s);\n") + emitted("%s(stream, value.%s);\n") == 1
+//@   iteration 0: a_removed_field_goes_through_a_temporary_of_its_type: change.FieldRemoved[i] ==> emitted("%s %s = {};\n") == 1 && emittedArg("%s %s = {};\n", 0, 0, string) == common.TypeSyntax(field.Type) && emitted("%s(stream, %s);\n") == 1 && emittedArg("%s(stream, %s);\n", 0, 0, string) == typeRwFunction(field.Type, write) && emittedArg("%s(stream, %s);\n", 0, 1, string) == common.FieldIdentifierName(field.Name)
+//@   iteration 0: an_unchanged_field_is_transferred_directly: !change.FieldRemoved[i] && change.FieldChanges[i] == nil ==> emitted("%s(stream, value.%s);\n") == 1 && emittedArg("%s(stream, value.%s);\n", 0, 0, string) == typeRwFunction(field.Type, write) && emittedArg("%s(stream, value.%s);\n", 0, 1, string) == common.FieldIdentifierName(field.Name)
+//@   iteration 0: a_changed_field_uses_the_functions_of_the_old_type: !change.FieldRemoved[i] && change.FieldChanges[i] != nil && !requiresExplicitConversion(change.FieldChanges[i]) ==> emitted("%s(stream, value.%s);\n") == 1 && emittedArg("%s(stream, value.%s);\n", 0, 0, string) == typeRwFunction(change.FieldChanges[i].OldType(), write) && emittedArg("%s(stream, value.%s);\n", 0, 1, string) == common.FieldIdentifierName(field.Name)
+//@   iteration 0: a_converting_change_is_not_transferred_directly: !change.FieldRemoved[i] && change.FieldChanges[i] != nil && requiresExplicitConversion(change.FieldChanges[i]) ==> emitted("%s(stream, value.%s);\n") == 0 && called(writeTypeConversion)
+
 // C15: the only place where the schema found in a stream header is compared with the current and the previous
 // schemas - and a stream of an unknown schema refused - is VersionFromSchema. Both constructors of every generated
 // binary reader initialise version_ from it, for every protocol, whether or not the protocol changed in some version.
